@@ -697,6 +697,8 @@ def run_cases(ctx, inputs, record=True):
             cases.append(coq_case(o, spans))
             metas.append((rule, text, acc))
     # chunk by size: keep each generated file below ~250 KB
+    for old in ctx.scratch.glob('cases_parse*.v'):
+        old.unlink()
     bad: list[int] = []
     start, size, k = 0, 0, 0
     groups = []
